@@ -146,6 +146,20 @@ func build(prop string, v variant, buildDir string) (string, error) {
 	case "asan":
 		args = append(args, "-asan")
 	}
+	// VERIF_REPO (tooling only, never set by the registered commands): build against another copy of
+	// the repository (a scratch worktree carrying a seeded change) without touching /repo.
+	if alt := os.Getenv("VERIF_REPO"); alt != "" {
+		mod, err := os.ReadFile(filepath.Join(verifDir, "harness", "go.mod"))
+		if err != nil {
+			return "", err
+		}
+		mod = bytes.Replace(mod, []byte("=> /repo"), []byte("=> "+alt), 1)
+		altMod := filepath.Join(buildDir, "alt.mod")
+		os.WriteFile(altMod, mod, 0o644)
+		sum, _ := os.ReadFile(filepath.Join(verifDir, "harness", "go.sum"))
+		os.WriteFile(filepath.Join(buildDir, "alt.sum"), sum, 0o644)
+		args = append(args, "-modfile", altMod)
+	}
 	args = append(args, "-o", out, "./cmd/vwork")
 	cmd := exec.Command(gobin, args...)
 	cmd.Dir = filepath.Join(verifDir, "harness")
